@@ -337,8 +337,11 @@ func runCase(c Case) *hx.Failure {
 	var shape *shapeErr
 	if pfail == nil && tree != nil {
 		ts.kinds = map[string]bool{}
-		shape = wellFormedStats(tree, &ts)
+		shape = wellFormedStats(tree, &ts, false)
 		classes = append(classes, "tree.depth."+bucket(ts.depth))
+		if ts.mapEntryNotPair {
+			classes = append(classes, "tree.map_entry_not_a_pair")
+		}
 		for _, k := range []string{parser.NodeIF, parser.NodeLOOP, parser.NodeTRY, parser.NodeFUNC, parser.NodeSINK, parser.NodeMUTEX, parser.NodeIMPORT, parser.NodeMAP, parser.NodeLIST} {
 			if ts.kinds[k] {
 				classes = append(classes, "tree.has."+k)
@@ -387,7 +390,7 @@ func runCase(c Case) *hx.Failure {
 			return f
 		}
 		if rerr == nil && rtree != nil {
-			if s := wellFormed(rtree); s != nil {
+			if s := wellFormed(rtree, false); s != nil {
 				return hx.Failf(s.sig, "ParseWithRuntime(%q) returned no error and a malformed tree: %s", clip(in, 300), s.msg)
 			}
 			if s := runtimesPresent(rtree); s != nil {
@@ -403,6 +406,9 @@ func runCase(c Case) *hx.Failure {
 				hx.E.Class("validate.error", 1)
 			} else {
 				hx.E.Class("validate.ok", 1)
+				if s := wellFormed(rtree, true); s != nil {
+					return hx.Failf(s.sig, "ParseWithRuntime(%q) + Validate() returned no error for a tree which evaluation cannot walk: %s", clip(in, 300), s.msg)
+				}
 			}
 		} else {
 			// same input, different verdict: purity is C13's subject, only counted here
@@ -559,7 +565,7 @@ func isValid(src string) (ok bool) {
 		}
 	}()
 	n, err := parser.Parse(srcName, src)
-	return err == nil && n != nil && wellFormed(n) == nil
+	return err == nil && n != nil && wellFormed(n, false) == nil
 }
 
 // ---------------------------------------------------------------------------------------
@@ -611,7 +617,14 @@ func drawSoup(rt *rapid.T) Case {
 // --- generator of nested valid programs
 
 type pgen struct {
-	rt *rapid.T
+	rt    *rapid.T
+	noMap bool // inside the guard of if/elif/for a '{' starts the block, map literals cannot occur there
+}
+
+func (g *pgen) guard(d int) string {
+	g.noMap = true
+	defer func() { g.noMap = false }()
+	return g.expr(d)
 }
 
 var (
@@ -658,6 +671,9 @@ func (g *pgen) expr(d int) string {
 		}
 		return "[" + strings.Join(el, ", ") + "]"
 	case 6:
+		if g.noMap {
+			return g.atom()
+		}
 		n := g.pick("mn", 3)
 		var el []string
 		for i := 0; i < n; i++ {
@@ -742,20 +758,20 @@ func (g *pgen) stmt(d int, ind string) string {
 	}
 	switch g.pick("stmt", 14) {
 	case 0, 1:
-		s := "if " + g.expr(1) + " " + g.block(d, ind)
+		s := "if " + g.guard(1) + " " + g.block(d, ind)
 		for i, n := 0, g.pick("elifs", 3); i < n; i++ {
-			s += " elif " + g.expr(1) + " " + g.block(d, ind)
+			s += " elif " + g.guard(1) + " " + g.block(d, ind)
 		}
 		if g.pick("else", 2) == 0 {
 			s += " else " + g.block(d, ind)
 		}
 		return s
 	case 2:
-		return "for " + g.expr(1) + " " + g.block(d, ind)
+		return "for " + g.guard(1) + " " + g.block(d, ind)
 	case 3:
 		return "for " + g.ident() + " in range(1, " + g.atom() + ") " + g.block(d, ind)
 	case 4:
-		return "for [" + g.ident() + ", " + g.ident() + "] in " + g.expr(1) + " " + g.block(d, ind)
+		return "for [" + g.ident() + ", " + g.ident() + "] in " + g.guard(1) + " " + g.block(d, ind)
 	case 5, 6:
 		s := "try " + g.block(d, ind)
 		for i, n := 0, g.pick("excepts", 3); i < n; i++ {
@@ -839,7 +855,7 @@ func (g *pgen) program() string {
 }
 
 func drawGen(rt *rapid.T) Case {
-	return mkCase("gen", (&pgen{rt}).program())
+	return mkCase("gen", (&pgen{rt: rt}).program())
 }
 
 // --- mutations
@@ -966,23 +982,24 @@ func drawMutation(rt *rapid.T, base, baseName string) Case {
 }
 
 func drawCase(rt *rapid.T) Case {
+	// (rapid favours the low end of a range: the mutations sit there)
 	switch k := rapid.IntRange(0, 19).Draw(rt, "kind"); {
-	case k < 2:
-		return drawBytes(rt)
-	case k < 6:
-		return drawSoup(rt)
-	case k < 8:
-		return drawGen(rt)
-	case k < 14 && len(corpus) > 0:
+	case k < 7 && len(corpus) > 0:
 		i := rapid.IntRange(0, len(corpus)-1).Draw(rt, "corpus")
 		return drawMutation(rt, corpus[i], fmt.Sprintf("corpus[%d]", i))
-	default:
-		base := (&pgen{rt}).program()
+	case k < 12:
+		base := (&pgen{rt: rt}).program()
 		if !isValid(base) {
 			// the generator aims at valid programs; what is not valid is still an input
 			return mkCase("gen", base)
 		}
 		return drawMutation(rt, base, "generated")
+	case k < 14:
+		return drawGen(rt)
+	case k < 18:
+		return drawSoup(rt)
+	default:
+		return drawBytes(rt)
 	}
 }
 
